@@ -475,7 +475,19 @@ func runCrashJobs(r *report.Report, jobs []crashArg, props map[string]bool) {
 	for _, j := range jobs {
 		args = append(args, j)
 	}
-	par.Map("nfs.crash", args, par.Options{}, func(i int, res *par.Result) {
+	skipped := 0
+	defer func() {
+		if skipped > 0 {
+			r.Exhaustive = false
+			r.Add("histories_not_run_time_budget", int64(skipped))
+			r.Note("%d of %d crash histories were not run (time budget); histories are ordered shortest first", skipped, len(jobs))
+		}
+	}()
+	par.Map("nfs.crash", args, par.Options{Deadline: Deadline}, func(i int, res *par.Result) {
+		if res.Skipped {
+			skipped++
+			return
+		}
 		if res.Crashed || res.Err != "" {
 			r.Violate(report.Violation{Sig: "worker-died|crash|" + fsx.Hist(jobs[i].Ops), Detail: res.Err + tail(res.Stderr, 3000), Replay: map[string]interface{}{"job": "nfs.crash", "arg": jobs[i]}})
 			return
